@@ -6,6 +6,17 @@ from props import common as cm
 def run(tier):
     r = Run('C17', tier, level='other')
     cm.run_kernels(r, cm.kernels('c_armodel_sim', 'c_armodel_residual'))
+    try:
+        from vf import pproof, engp
+        obls, npaths = wrapper_obligations()
+        pproof.discharge(r, obls, file='src/hydrodiy/stat/armodels.py', fn_of=lambda ob: ob.id.split('/')[1])
+        r.functions += [dict(file='armodels.py', fn=f, trusted=['c_hydrodiy_stat (replaced by a recorder: its behaviour is the proved kernel contract)'], nonterminating=[], cutloops=0, unrolled=0, terminating=0) for f in ('armodel_sim', 'armodel_residual')]
+        r.extra['paths_explored'] = npaths
+    except (engp.Unsupported, engp.PathLimit) as e:
+        r.undecided.append('Engine P cannot execute the current armodels wrappers symbolically: %s' % (str(e)[:300],))
+    except Exception:
+        import traceback
+        r.broken.append('C17 Engine P driver crashed: ' + traceback.format_exc()[-2500:])
     from vf import child
     res = child.run('props.C17', 'monitors_child', r.prop, r.tier, r.seed)
     child.merge(r, res['recorder'])
@@ -74,3 +85,80 @@ def monitors_child(rec):
             bad += 1; _fail(rec, 'armodel_sim/armodel_residual', 'raises: %s %s' % (type(ex).__name__, str(ex)[:120]), params=[float(p) for p in phi], sim_mean=float(mean), sim_ini=None if ini is None else float(ini))
     rec.bounded_clause('armodel_sim follows the recursion from the initial value; residual(sim(e)) == e and sim(residual(y)) == y through the Python API, explicit and default initial values (incl. 0 with a non-zero mean)',
                        '%d cases: orders 1..10, 1..25 steps, coefficients / innovations on a dyadic lattice (exact rational oracle), 4 means x 5 initial values' % (250 if quick else 2500), ev, DD.n('armodel_sim'), False, bad)
+
+
+# ------------------------------------------------------------------------------------------------ Engine P: the python wrappers hand the kernel what the caller gave
+def wrapper_obligations():
+    """the real armodels.armodel_sim / armodel_residual executed on symbolic arguments with the compiled module replaced by a recorder:
+    the kernel must be entered once with (sim_mean, the initial value - the mean when none is given -, the coefficients, the series) and the
+    wrapper must return the kernel's output buffer reshaped.  What the kernels then compute is the proved part above."""
+    import numpy as np, z3
+    from vf import engp, pproof, pybuild
+    from vf.engp import sym, SymReal, SA
+    pybuild.activate()
+    from hydrodiy.stat import armodels as A
+
+    class NPX(engp.NPProxy):
+        def nanmean(self, x, *a, **k):
+            if not engp.symbolic(x):
+                return np.nanmean(x, *a, **k)
+            xs = list(np.asarray(x, dtype=object).ravel())          # the symbolic series holds numbers (no NaN): nanmean == mean
+            return sum(xs[1:], xs[0]) / float(len(xs))
+
+    class Kernel:
+        def __init__(self):
+            self.calls = []
+
+        def armodel_sim(self, sim_mean, sim_ini, params, innov, outputs):
+            self.calls.append(('sim', sim_mean, sim_ini, params, innov, outputs)); outputs[:] = [sym('out%d' % i) for i in range(len(outputs))]; return 0
+
+        def armodel_residual(self, sim_mean, sim_ini, params, inputs, residuals):
+            self.calls.append(('residual', sim_mean, sim_ini, params, inputs, residuals)); residuals[:] = [sym('out%d' % i) for i in range(len(residuals))]; return 0
+
+    obls = []; npaths = 0
+    n = 3; k = 2
+    phi = [sym('phi%d' % i) for i in range(k)]; x = [sym('x%d' % i) for i in range(n)]
+    mean = sym('mean'); ini = sym('ini')
+    names = ['phi%d' % i for i in range(k)] + ['x%d' % i for i in range(n)] + ['mean', 'ini']
+    same = lambda a, b: z3.And(z3.Not(SymReal.lift(a).nan), SymReal.lift(a).val == SymReal.lift(b).val)
+    for fn in ('armodel_sim', 'armodel_residual'):
+        for mean_given in (True, False):
+            if fn == 'armodel_sim' and not mean_given:
+                continue          # armodel_sim has a numeric default mean (0.): covered with the symbolic mean
+            for ini_given in (True, False):
+                kern = Kernel()
+
+                def run():
+                    kern.calls = []
+                    p = np.empty(k, dtype=object); p[:] = phi; v = np.empty(n, dtype=object); v[:] = x
+                    kw = {}
+                    if mean_given:
+                        kw['sim_mean'] = mean
+                    if ini_given:
+                        kw['sim_ini'] = ini
+                    out = getattr(A, fn)(p.view(SA), v.view(SA), **kw)
+                    return out, list(kern.calls)
+                saved = (A.np, A.c_hydrodiy_stat, A.has_c_module)
+                A.np = NPX(); A.c_hydrodiy_stat = kern; A.has_c_module = lambda *a, **kw: True
+                try:
+                    paths = engp.explore(run, base=[], allowed_exc=())
+                finally:
+                    A.np, A.c_hydrodiy_stat, A.has_c_module = saved
+                npaths += len(paths)
+                for kp, pa in enumerate(paths):
+                    out, calls = pa.result
+                    hyp = list(pa.pc) + list(pa.axioms)
+                    tag = 'armodels.py/%s/mean_given=%s,ini_given=%s/path%d' % (fn, mean_given, ini_given, kp)
+                    if len(calls) != 1:
+                        obls.append(pproof.PObligation(tag + '/one-kernel-call', 'post', 'the kernel is entered exactly once', hyp, z3.BoolVal(False), names)); continue
+                    _, a_mean, a_ini, a_par, a_x, a_out = calls[0]
+                    exp_mean = mean if mean_given else sum(x[1:], x[0]) / float(n)
+                    exp_ini = ini if ini_given else exp_mean
+                    obls.append(pproof.PObligation(tag + '/mean', 'post', '%s passes the mean it was given (the mean of the series when none is given) to the kernel' % fn, hyp, same(a_mean, exp_mean), names))
+                    obls.append(pproof.PObligation(tag + '/initial-value', 'post', '%s passes the initial value it was given - the mean when none is given - to the kernel' % fn, hyp, same(a_ini, exp_ini), names))
+                    obls.append(pproof.PObligation(tag + '/coefficients', 'post', '%s passes the coefficients unchanged' % fn, hyp, z3.And(z3.BoolVal(len(a_par) == k), *[same(a_par[i], phi[i]) for i in range(min(k, len(a_par)))]), names))
+                    obls.append(pproof.PObligation(tag + '/series', 'post', '%s passes the series unchanged' % fn, hyp, z3.And(z3.BoolVal(len(a_x) == n), *[same(a_x[i], x[i]) for i in range(min(n, len(a_x)))]), names))
+                    o = list(np.asarray(out, dtype=object).ravel())
+                    obls.append(pproof.PObligation(tag + '/returns-kernel-output', 'post', '%s returns what the kernel wrote, in the shape of the input' % fn, hyp,
+                                                   z3.And(z3.BoolVal(np.shape(out) == (n,)), *[same(o[i], a_out[i]) for i in range(min(n, len(o)))]), names))
+    return obls, npaths
